@@ -88,9 +88,9 @@ def gen(rng, tier, index):
         b = {"kind": "rigid", "m": m, "theta": [0.05, 0.06, 0.07], "r": [L, 0.0, 0.0], "p": [1.0, 0, 0, 0], "v": [0, 0, 0], "w": [0, 0, 0]}
         x = rng.random()
         if x < 0.6:
-            act = {"type": "pd", "joint": 0, "kp": float(rng.uniform(10, 60)), "kd": float(rng.uniform(0.1, 1)), "target": [float(rng.uniform(-1.0, 1.0)), 0.0], "time": "ramp"}
+            act = {"type": "pd", "joint": 0, "kp": float(rng.uniform(1, 30)), "kd": float(rng.uniform(0.1, 1)), "target": [float(rng.uniform(-1.0, 1.0)), 0.0], "time": "ramp"}
         elif x < 0.8:
-            act = {"type": "pid", "joint": 0, "kp": float(rng.uniform(10, 60)), "ki": 0.0, "kd": float(rng.uniform(0.1, 1)), "target": [float(rng.uniform(-1.0, 1.0)), 0.0], "time": "ramp", "q0": 0.0}
+            act = {"type": "pid", "joint": 0, "kp": float(rng.uniform(1, 30)), "ki": 0.0, "kd": float(rng.uniform(0.1, 1)), "target": [float(rng.uniform(-1.0, 1.0)), 0.0], "time": "ramp", "q0": 0.0}
         else:
             act = {"type": "motor", "joint": 0, "tau": float(rng.uniform(-0.8, 0.8) * m * 9.81 * L), "time": "ramp"}
         plan["scene"] = {
@@ -103,9 +103,9 @@ def gen(rng, tier, index):
             "actuators": [act],
             "forces": [],
             "contacts": [],
-            "gravity": [0.0, 0.0, -9.81 * float(rng.uniform(0.0, 1.0))],
+            "gravity": [0.0, 0.0, -9.81 * float(rng.uniform(0.3, 1.0))],
         }
-        plan["n_load_steps"] = int(rng.integers(2, 7))
+        plan["n_load_steps"] = int(rng.integers(2, 9))
     elif kind == "signorini_linear":
         # linear structures (bodies on prismatic guides and axial springs) whose contacts close in the MIDDLE of a load
         # step: Newton's update computed with the old contact state is exact, the contact state changes in the last
